@@ -53,11 +53,43 @@ static void pm_user_array(const xv_req *r, xv_resp *o, xrl_error **e, const char
   Crystal_ArrayFree(a);
 }
 
+/* requests 2002-2004: the three catalogue listings (count + hash of the names) */
+static void pm_list(const xv_req *r, xv_resp *o, xrl_error **e) { int n = -1, k; uint64_t h = XV_FNV0; char **l;
+  l = r->fn == 2002 ? GetCompoundDataNISTList(&n, e) : r->fn == 2003 ? GetRadioNuclideDataList(&n, e) : Crystal_GetCrystalsList(NULL, &n, e);
+  if (l) { for (k = 0; l[k]; k++) { h = xv_fnv(l[k], strlen(l[k]) + 1, h); xrlFree(l[k]); } xrlFree(l); o->v[0] = (double)(h >> 11); }
+  o->aux = n; }
+/* request 2005: Crystal_ArrayInit(i[0]) - with INT_MAX the one call of the API that fails for want of memory */
+static void pm_arrayinit(const xv_req *r, xv_resp *o, xrl_error **e) { Crystal_Array *a = Crystal_ArrayInit(r->i[0], e); o->aux = a != NULL; if (a) Crystal_ArrayFree(a); }
+/* request 2006: several queries on ONE caller-owned crystal object (s = built-in name, i[0] = order of the queries, i[1] = 1: the
+ * caller has edited the cell and left the stored volume alone).  Queries take the crystal as an input: they must not write to it,
+ * and a query repeated on the same object must repeat its answer whatever was asked in between. */
+static long pm_objmod, pm_objdep;
+static uint64_t pm_crhash(const Crystal_Struct *c) { uint64_t h = XV_FNV0; h = xv_fnv(c->name, strlen(c->name) + 1, h); h = xv_fnv(&c->a, sizeof(double) * 7, h); h = xv_fnv(&c->n_atom, sizeof c->n_atom, h);
+  if (c->n_atom > 0) h = xv_fnv(c->atom, sizeof(Crystal_Atom) * c->n_atom, h); return h; }
+static void pm_object(const xv_req *r, xv_resp *o) {
+  Crystal_Struct *g = Crystal_GetCrystal(xe_s(r->s), NULL, NULL); uint64_t h0; double d0, d1, b0, b1; xrlComplex f0, f1; int k, ord = r->i[0];
+  if (!g) { o->status = 8; return; }
+  if (r->i[1]) { g->a *= 1.01; g->gamma += 0.5; }
+  h0 = pm_crhash(g);
+  d0 = Crystal_dSpacing(g, 1, 1, 1, NULL); b0 = Bragg_angle(g, 12.0, 1, 1, 1, NULL); f0 = Crystal_F_H_StructureFactor(g, 12.0, 1, 1, 1, 1.0, 1.0, NULL);
+  for (k = 0; k < 4; k++) switch ((ord >> (2 * k)) & 3) {
+    case 0: Crystal_UnitCellVolume(g, NULL); break;
+    case 1: Q_scattering_amplitude(g, 12.0, 2, 2, 0, 1.0, NULL); break;
+    case 2: Crystal_F_H_StructureFactor_Partial(g, 20.0, 2, 2, 0, 1.0, 1.0, 2, 0, 2, NULL); break;
+    default: { Crystal_Struct *c2 = Crystal_MakeCopy(g, NULL); if (c2) Crystal_Free(c2); } break; }
+  d1 = Crystal_dSpacing(g, 1, 1, 1, NULL); b1 = Bragg_angle(g, 12.0, 1, 1, 1, NULL); f1 = Crystal_F_H_StructureFactor(g, 12.0, 1, 1, 1, 1.0, 1.0, NULL);
+  if (pm_crhash(g) != h0) { pm_objmod++; o->aux |= 1; }
+  if (xv_bits(d0) != xv_bits(d1) || xv_bits(b0) != xv_bits(b1) || xv_bits(f0.re) != xv_bits(f1.re) || xv_bits(f0.im) != xv_bits(f1.im)) { pm_objdep++; o->aux |= 2; }
+  o->v[0] = d1; o->v[1] = f1.re; o->v[2] = g->volume;
+  Crystal_Free(g); }
+
 #define KEEP 4000
 typedef struct { xrl_error *e; int code; char *msg; char *msgptr; } pm_kept;
 
+static const int pm_errnos[8] = { ENOMEM, 0, ERANGE, EDOM, EINVAL, ENOENT, EINTR, EAGAIN };
+
 int main(int argc, char **argv) {
-  FILE *f; long n, k; char *sbuf = NULL; long slen = 0; xv_req *rq; xv_resp *rs; pm_kept *kept; int nkept = 0, changed = 0;
+  int poison = 0; FILE *f; long n, k; char *sbuf = NULL; long slen = 0; xv_req *rq; xv_resp *rs; pm_kept *kept; int nkept = 0, changed = 0;
   uint64_t h0, h1; char loc0[512], loc1[512], cwd0[1024], cwd1[1024], p1[600], p2[600]; int fd1, fd2; struct stat st1, st2; long added = 0;
   if (argc < 7 || strcmp(argv[1], "run")) { fprintf(stderr, "usage: puremon run req str resp msg report\n"); return 2; }
   setlocale(LC_ALL, "");
@@ -78,12 +110,17 @@ int main(int argc, char **argv) {
   snprintf(loc0, sizeof loc0, "%s", setlocale(LC_ALL, NULL)); if (!getcwd(cwd0, sizeof cwd0)) cwd0[0] = 0;
   h0 = pm_hash();
   if (getenv("XV_XRAYINIT")) XRayInit();
+  poison = getenv("XV_ERRNO") != NULL;
   for (k = 0; k < n; k++) {
     xrl_error *e = NULL; const xv_req *r = &rq[k]; xv_resp *o = &rs[k];
     o->msg = -1;
+    if (poison) errno = pm_errnos[(k * 7 + 3) % 8];      /* what an arbitrary earlier call of the process may have left behind */
     if (r->fn >= 0 && r->fn < XV_NFN) o->v[0] = xv_call(r->fn, r->i, r->d, xe_s(r->s), &e);
     else if (r->fn >= 1000 && r->fn < XS_END) xe_special(r, o, &e);
     else if (r->fn == 2001) pm_user_array(r, o, &e, argv[6]);
+    else if (r->fn >= 2002 && r->fn <= 2004) pm_list(r, o, &e);
+    else if (r->fn == 2005) pm_arrayinit(r, o, &e);
+    else if (r->fn == 2006) pm_object(r, o);
     else if (r->fn == 2000) { Crystal_Struct *c = Crystal_GetCrystal("Si", NULL, NULL); if (c) { free(c->name); c->name = strdup(xe_s(r->s) ? xe_s(r->s) : "XvAdded"); o->aux = Crystal_AddCrystal(c, NULL, &e); added += o->aux; Crystal_Free(c); } }
     else o->status = 16;
     if (e) { o->status |= 1; o->code = (int)e->code; o->msg = xe_msgid(e->message);
@@ -101,8 +138,8 @@ int main(int argc, char **argv) {
   fclose(f);
   f = fopen(argv[6], "w"); if (!f) return 2;
   fprintf(f, "{\"h0\":\"%016llx\",\"h1\":\"%016llx\",\"hashed_bytes\":%zu,\"segments\":%d,\"locale_before\":\"%s\",\"locale_after\":\"%s\",\"cwd_same\":%d,"
-             "\"stdout_bytes\":%ld,\"stderr_bytes\":%ld,\"errors_kept\":%d,\"errors_changed\":%d,\"builtin_added\":%ld,\"requests\":%ld}\n",
-          (unsigned long long)h0, (unsigned long long)h1, pm_nb, pm_nseg, loc0, loc1, !strcmp(cwd0, cwd1), (long)st1.st_size, (long)st2.st_size, nkept, changed, added, n);
+             "\"stdout_bytes\":%ld,\"stderr_bytes\":%ld,\"errors_kept\":%d,\"errors_changed\":%d,\"builtin_added\":%ld,\"requests\":%ld,\"caller_objects_modified\":%ld,\"answers_changed_on_same_object\":%ld,\"errno_poisoned\":%d}\n",
+          (unsigned long long)h0, (unsigned long long)h1, pm_nb, pm_nseg, loc0, loc1, !strcmp(cwd0, cwd1), (long)st1.st_size, (long)st2.st_size, nkept, changed, added, n, pm_objmod, pm_objdep, poison);
   fclose(f);
   unlink(p1); unlink(p2);
   { char t[700]; snprintf(t, sizeof t, "%s.good.dat", argv[6]); unlink(t); snprintf(t, sizeof t, "%s.bad.dat", argv[6]); unlink(t); snprintf(t, sizeof t, "%s.dup.dat", argv[6]); unlink(t); }
